@@ -332,6 +332,9 @@ func saveFetchedRefs(
 	return savedRefs, nil
 }
 
+// maxFetchAttempts bounds how many times Fetch starts over after a stream error
+const maxFetchAttempts = 5
+
 var streamErrorRe = regexp.MustCompile(`.*stream error: stream ID \d+; INTERNAL_ERROR; received from peer$`)
 
 func isStreamError(err error) bool {
@@ -383,14 +386,16 @@ func Fetch(
 	if err != nil {
 		return fmt.Errorf("error creating new client: %w", err)
 	}
-	for {
+	for attempt := 1; ; attempt++ {
 		refs, dstRefs, maybeSaveTags, advertised, err := identifyRefsToFetch(cmd, cm, cr, specs)
 		if err != nil {
 			return fmt.Errorf("error fetching refs: %w", err)
 		}
 		fetchedCommits, err := fetchObjects(cmd, db, rs, client, advertised, depth, container)
 		if err != nil {
-			if isStreamError(err) {
+			// a stream reset is worth retrying, but not forever: a remote
+			// that resets every stream must not keep the client busy for good
+			if isStreamError(err) && attempt < maxFetchAttempts {
 				continue
 			}
 			return fmt.Errorf("error fetching objects: %w", err)
